@@ -64,6 +64,41 @@ PROPS = {
                     "with an exact containment oracle. Exploration only."),
         level_note="trusts oracle.hpp winding/midpoint containment, g++, rapidcheck",
     ),
+    "C13": dict(
+        bins={"main": dict(tc="gcc", src="prop_C13.cpp", variants=["plain", "hp"], shims=["hp"])},
+        parts=[dict(name="gp", workers={Q: 16, T: 16}, cases={Q: 400, T: 12000})],
+        rule=("cases = general-position closed path sets (|coord| <= 2^40) plus transformation parameters (permutation, "
+              "rotation and duplication seeds, translation vector, scale 2..7, one of translate/transpose/mirror/scale); for "
+              "every clip type x fill rule x PreserveCollinear x ReverseSolution on the default and the HI_PRECISION library: "
+              "EXACT canonical equality under path permutation, start-vertex rotation, duplicate/closing vertex insertion and "
+              "subject/clip swap (Intersection, Union, Xor); REGION equality (exact winding at one sample per arrangement "
+              "face outside the tolerance band) under reversal of all paths (Positive<->Negative), the geometric "
+              "transformation (Positive<->Negative for transpose/mirror), Xor = Union - Intersection, and Difference + "
+              "Intersection = filled subject. Non-trivial = at least one proper crossing and a representation variant that "
+              "differs from the original"),
+        assumptions=["general position at separation 3 + max|coord|*2^-40", "samples farther than 2 + max|coord|*2^-42 from every input edge"],
+        technique="property-based testing (rapidcheck): metamorphic relations (exact and region equality) on two build variants",
+        level_text=("Generated search; each case checks 4 exact and 4 region metamorphic relations under all 64 configurations "
+                    "on both precision builds. Exploration only."),
+        level_note="trusts canonicalisation + exact winding oracle in oracle.hpp, g++, rapidcheck",
+    ),
+    "C05": dict(
+        bins={"main": dict(tc="gcc", src="prop_C05.cpp", variants=["plain"])},
+        parts=[dict(name="gp", workers={Q: 16, T: 16}, cases={Q: 2500, T: 80000})],
+        rule=("cases = 1-3 open polylines (2-8 vertices) over closed subject/clip sets, all in general position (every "
+              "vertex and crossing >= 3 units from every other edge, open ones included), |coord| <= 2^32; each case runs 4 "
+              "clip types x 4 fill rules x {paths, polytree}. Reference: every open segment is cut at its exact crossings "
+              "with closed edges; the midpoint of every sub-interval longer than 6 units is classified by winding numbers "
+              "(inside clip for Intersection, outside clip for Difference/Xor, outside subject and clip regions for Union). "
+              "Checked: locality of every solution segment (1.5 units), coverage both ways at the midpoints, total length "
+              "within 3 units per crossing, closed-solution region unchanged by the open subjects. Non-trivial = an open "
+              "segment with >= 2 crossings that has both an inside and an outside interval"),
+        assumptions=["|coord| <= 2^32 so that long double classification of non-integer midpoints is exact with margin >= 1e-3",
+                     "sub-intervals shorter than 6 units or closer than 1e-3 to an edge are not judged; their length is added to the length tolerance"],
+        technique="property-based testing (rapidcheck): exact reference cutting of open segments + winding classification",
+        level_text="Generated search against an independent segment-cutting reference under 32 configurations. Exploration only.",
+        level_note="trusts the reference cutter in prop_C05.cpp and oracle.hpp, g++, rapidcheck",
+    ),
     "C02": dict(
         bins={"main": dict(tc="gcc", src="prop_C02.cpp", variants=["plain"])},
         parts=[
